@@ -1083,19 +1083,32 @@ func fpConv(op Op, w, sw uint8, v uint64) uint64 {
 // ---------------------------------------------------------------------------------------
 // derived bit tricks (math/bits)
 
-// Popcount returns the number of set bits of a as a term of the same width.
+// Popcount returns the number of set bits of a as a term of the same width (64-bit only uses the
+// parallel-prefix formulation, which SAT solvers handle far better than a chain of 64 additions).
 func (t *Table) Popcount(a *Term) *Term {
 	if a.IsConst() {
 		return t.Const(a.W, uint64(bits.OnesCount64(a.Val)))
 	}
-	sum := t.Const(a.W, 0)
-	for i := uint8(0); i < a.W; i++ {
-		if a.kz&(uint64(1)<<i) != 0 {
-			continue
+	if a.W != 64 {
+		sum := t.Const(a.W, 0)
+		for i := uint8(0); i < a.W; i++ {
+			if a.kz&(uint64(1)<<i) != 0 {
+				continue
+			}
+			sum = t.Add(sum, t.ZExt(a.W, t.Extract(i, i, a)))
 		}
-		sum = t.Add(sum, t.ZExt(a.W, t.Extract(i, i, a)))
+		return sum
 	}
-	return sum
+	c := func(v uint64) *Term { return t.Const(64, v) }
+	const m0, m1, m2 = 0x5555555555555555, 0x3333333333333333, 0x0f0f0f0f0f0f0f0f
+	x := a
+	x = t.Add(t.BAnd(t.LShr(x, c(1)), c(m0)), t.BAnd(x, c(m0)))
+	x = t.Add(t.BAnd(t.LShr(x, c(2)), c(m1)), t.BAnd(x, c(m1)))
+	x = t.BAnd(t.Add(t.LShr(x, c(4)), x), c(m2))
+	x = t.Add(x, t.LShr(x, c(8)))
+	x = t.Add(x, t.LShr(x, c(16)))
+	x = t.Add(x, t.LShr(x, c(32)))
+	return t.BAnd(x, c(127))
 }
 
 // TrailingZeros returns the count of trailing zero bits (width of a when a == 0), as width-64 term.
